@@ -1,10 +1,22 @@
 #!/bin/bash
-# usage: tools/mkwt.sh <name>   -> scratch git worktree of /repo's HEAD at /tmp/wt/<name> with a warm copy of /repo/target
+# usage: tools/mkwt.sh <name>   -> scratch git worktree of /repo's HEAD at /tmp/wt/<name> with a warm target directory.
+# The warm directory is a hard-link copy (instant) of a dependency-only template /tmp/wt/_tmpl: one real copy of /repo/target with every
+# artefact of the workspace member removed (those are rebuilt after any source change anyway; dependency artefacts are never rewritten
+# by cargo, so sharing their inodes between scratch worktrees is safe; /repo/target itself is never linked to).
 set -e
 n=$1
 d=/tmp/wt/$n
 mkdir -p /tmp/wt
 if [ -d "$d" ]; then echo "exists $d"; exit 0; fi
+if [ ! -d /tmp/wt/_tmpl ] && [ -d /repo/target ]; then
+  cp -a /repo/target /tmp/wt/_tmpl.part
+  T=/tmp/wt/_tmpl.part/debug
+  for h in $(ls $T/.fingerprint | grep '^redis-sim-' | sed 's/^redis-sim-//'); do
+    rm -rf "$T/.fingerprint/redis-sim-$h" "$T/build/redis-sim-$h"; rm -f "$T"/deps/*-$h "$T"/deps/*-$h.*
+  done
+  rm -rf /tmp/wt/_tmpl.part/debug/incremental; find "$T" -maxdepth 1 -type f -delete
+  mv /tmp/wt/_tmpl.part /tmp/wt/_tmpl
+fi
 git -C /repo worktree add --detach "$d" HEAD >/dev/null 2>&1
-if [ -d /repo/target ]; then cp -a --reflink=auto /repo/target "$d/target"; fi
+if [ -d /tmp/wt/_tmpl ]; then cp -al /tmp/wt/_tmpl "$d/target"; fi
 echo "$d"
